@@ -26,6 +26,11 @@ def run_unit(pid, unit, tier, seed, known):
         return su.unit_native('park', {}, 'worker-preemption-native', su.PARK_BOUND)
     if unit == 'native_rerun':
         return su.unit_native('rerun', su.rerun_args(tier, seed), 'rerun-histories-native', su.RERUN_BOUND)
+    if unit == 'schedule':
+        return su.unit_schedule(tier, pid)
+    if unit.startswith('dg_'):
+        from . import C16
+        return C16.run_unit(unit[3:], tier, seed, known)
     if unit == 'merge_done':
         from . import env_units
         return env_units.unit_merge_done(tier, pid)
